@@ -11,7 +11,9 @@ import (
 func TestMain(m *testing.M) { kit.MainWith(m, scratch.Cleanup) }
 
 func TestDerive(t *testing.T) {
-	gomspec.DeriveCheck(t, "derive/packages", kit.Pick(5, 100))
+	gomspec.DeriveCheck(t, "derive/packages", kit.Pick(4, 100), "")
+	// focused on @fp.Derive(recursive=true) over nested plain structs with exported / mixed-visibility fields
+	gomspec.DeriveCheck(t, "derive/recursive-plain", kit.Pick(2, 50), "recursive-plain")
 }
 
 func TestKnown(t *testing.T) {
